@@ -15,6 +15,7 @@ from hypothesis import strategies as st
 from . import canon, e1_solver, ref
 from .e5_render import parse_tikz
 from .kernel import CLOCK, ORACLE, HarnessError, Run
+from .kernel import RunDoesNotReturn as kernel_RunDoesNotReturn
 from .peer import PEER
 
 NAME = "E4-cli-pipeline"
@@ -190,6 +191,8 @@ def run_process(fs, argv, stdin_text="", order=0, clock=0):
             raise
         except SimCrash:
             _killed(fs, proc)
+        except kernel_RunDoesNotReturn:
+            raise  # the per-run limit of the harness, not an event inside the simulated process
         except BaseException as exc:  # noqa: BLE001 - an uncaught exception ends a process with 1
             proc.exception = exc
             proc.status = 1
